@@ -355,3 +355,27 @@ PROPS["C07"] = dict(
                         "m_str.cut": 0.0007, "m_map.replace": 0.0007, "m_linearReg": 0.0007, "m_createInterpolation": 0.0007, "m_combineN": 0.0007,
                         "m_movingWindow": 0.0007, "m_groupByEqual": 0.0007, "m_cross": 0.0007, "m_compact": 0.0007},
 )
+
+
+PROPS["C06"] = dict(
+    pkg="c06",
+    replay_race=True,
+    replay_isolated=True,
+    rule=("pipelines numbers(N), N in 0..2000 -> 0..6 lazy stages drawn from map, accept, combine, combine3, combineN, iir, iirCombine, number, "
+          "compact, cross, merge (with a generated sub-pipeline as second operand), fsm, top, skip, + (concatenation with a sub-pipeline) -> a "
+          "terminal from reduce, mapReduce, sum, size, string, first, last, minMax, visit, order, orderRev+top, groupByInt, multiUse, the lazy "
+          "list itself (forced by the host), eval; every closure gets a cost profile: fast, probe, slow (sleeps 250-400 us per element: "
+          "forces the timing-based switch to parallel execution), slowTo (slow only for small elements: forces the switch cheaply or delays "
+          "it to a later stage), jitter (value dependent sleeps: workers finish out of order); 15% of the pipelines contain one closure that "
+          "throws at some element (only in front of completely consuming terminals). Every pipeline is evaluated under two (thorough: all "
+          "four) GOMAXPROCS values from {1,2,4,16}, thorough three times each, in a binary built with the race detector "
+          "(GORACE=halt_on_error=1: a reported race kills the process, the recorded pending case is confirmed in isolation). Oracle: the "
+          "reference interpreter's strictly sequential eager result (element sequence, or 'fails'). Non-trivial: a goroutine probe saw a "
+          "stage closure on a goroutine other than the caller's and the pipeline has at least two closure-calling stages/terminal; distinct "
+          "= pipeline text + sleep."),
+    assumptions=["schedules are sampled (GOMAXPROCS x repetitions x jitter), not enumerated; the race detector reports only races that happen in a sampled run",
+                 "closures do not capture lists that are still lazy (that hazard is finding F18, tracked under C11)"],
+    jobs=[dict(name="c06", run="^TestPropC06$", kind="rapid", race=True, shards=16, checks={"quick": 3200, "thorough": 60000},
+               env={"GORACE": "halt_on_error=1"}, guard={"quick": 1200, "thorough": 10800}, shrinktime="60s")],
+    min_class_fraction={"stage_closure_ran_on_another_goroutine": 0.2, "failing_element": 0.03, "stage_merge": 0.05, "terminal_multiUse": 0.02},
+)
